@@ -20,6 +20,22 @@ Proof.
 Qed.
 Print Assumptions C10_limit_respected.
 
+(** The limit also holds when a user future sends the interrupt signal itself, inside a poll of the
+    call ([SelfSignal.run_sig]; known finding F4 concerns the C08 bound only). *)
+Theorem C10_limit_respected_when_a_user_future_sends_the_signal :
+  forall ops G p q rev a mt ctl lim st incl imm sg evs T0 T1,
+  build (builder_run ops) = BOk G p q ->
+  let cf := mk_cfg G rev a mt ctl lim st incl imm true in
+  eff_limit cf <> 0 ->
+  trace (fst (SelfSignal.run_sig sg cf evs)) = T0 ++ T1 ->
+  length (starts T0) <= length (ends T0) + eff_limit cf.
+Proof.
+  intros ops G p q rev a mt ctl lim st incl imm sg evs T0 T1 Hb cf Hl Ht.
+  destruct (run_sig_invs ops G p q rev a mt ctl lim st incl imm sg evs Hb) as (H1 & H2 & Hn).
+  apply (x_inflight _ _ H2 Hl T0 T1 Ht).
+Qed.
+Print Assumptions C10_limit_respected_when_a_user_future_sends_the_signal.
+
 Theorem C10_fold_is_sequential : forall cf, is_seq (c_api cf) = true -> eff_limit cf = 1.
 Proof. intros cf H. unfold eff_limit. rewrite H. reflexivity. Qed.
 Print Assumptions C10_fold_is_sequential.
